@@ -504,6 +504,12 @@ impl Explorer<'_, '_> {
                 if let Some(v) = check_progress(input, &t, 3) {
                     self.viol(input, script, ctor0, v);
                 }
+                for &ctor in &plan.ctors[1..] {
+                    let t2 = self.run_one(input, script, ctor);
+                    if let Some(v) = check_progress(input, &t2, 3) {
+                        self.viol(input, script, ctor, v);
+                    }
+                }
             }
             Proj::Ctors => {
                 let base = strip_text(&t);
